@@ -224,11 +224,14 @@ func Run(c *core.Ctx) core.FinishOpts {
 		tc.groupQ.Trigger = old
 	})
 
+	joinGroupCases(c, runner, only, selftest)
+
 	return core.FinishOpts{
 		Level: "exploration",
 		Rule: "case i = one generated table and one generated grouping query: 0-3 key expressions (columns or depth<=2 expressions), 1-4 aggregates out of count(*)/count/sum/avg/min/max/array_agg and the DISTINCT forms over Int/Float expressions (any scalar type for count and array_agg), optional WHERE below, " +
 			"optionally wrapped in an outer SELECT with a HAVING-like WHERE over the aggregate columns, optional ORDER BY/LIMIT, no trigger / TRIGGER COUNTING 1-4 / TRIGGER ON END OF STREAM; printed in mode i mod 4 of json/stream_native/batch_table/csv (lists only in json and stream_native; a top level that emits retractions only in the consolidating modes); " +
-			"in stream_native and batch_table the query is run a second time with the other group-by implementation (COUNTING trigger added or removed) and must print the same rows; non-trivial = the grouping level has at least 2 groups; distinct by (SQL, table file, mode)",
+			"in stream_native and batch_table the query is run a second time with the other group-by implementation (COUNTING trigger added or removed) and must print the same rows; non-trivial = the grouping level has at least 2 groups; distinct by (SQL, table file, mode); " +
+			"plus a directed family (join.go): GROUP BY over an inner join of two files that share a column name, with both same-named columns (or expressions differing only in the qualifier) as keys, either/both selected, aggregates over either side",
 		Floor: c.Pick(120, 4000),
 		Assumptions: []string{
 			"oracle: harness/sqlref reference grouping (standard library only): aggregates ignore NULL inputs, yield NULL on an empty set (count included, as the statement says), AVG(Int) truncates toward zero, array_agg ascending, Int sums wrap",
